@@ -146,13 +146,27 @@ def _module_at(src_lines, line_no):
 RUSTC_TIMEOUT_S = 300
 
 
-def _rustc_metadata(rustc, so, src, out_dir, timeout=RUSTC_TIMEOUT_S):
-    """stderr of the compilation, or None if rustc did not finish within the limit."""
+class _Partial(str):
+    """stderr of a compilation that was cut off by the time limit."""
+
+
+def _rustc_metadata(rustc, so, src, out_dir, timeout=RUSTC_TIMEOUT_S, partial=False):
+    """stderr of the compilation, or None if rustc did not finish within the limit. With
+    `partial`, a cut-off compilation whose diagnostics show that macro expansion had already
+    finished (rustc reports coded name-resolution / type errors only after every macro has been
+    expanded) returns what was printed so far: the rest of the time went into rustc's own
+    analysis of the generated code, which is not under test - e.g. an `impl<T> Add for <unresolved>`
+    next to a 64-field struct keeps the trait solver busy for minutes."""
     try:
         r = subprocess.run([rustc, "--edition", "2021", "--crate-type", "lib", "--emit=metadata",
                             "--out-dir", out_dir, "--extern", f"derive_ex={so}", src],
                            env={"PATH": "/usr/bin:/bin"}, capture_output=True, text=True, timeout=timeout)
-    except subprocess.TimeoutExpired:
+    except subprocess.TimeoutExpired as e:
+        err = e.stderr or ""
+        if isinstance(err, bytes):
+            err = err.decode("utf-8", "replace")
+        if partial and re.search(r"^error\[E0\d+\]", err, re.M):
+            return _Partial(err)
         return None
     return r.stderr
 
@@ -191,6 +205,14 @@ def _pool_files(kw):
     return args
 
 
+def _chunks_for(kw, n_inputs, pool_stride):
+    """rustc's cost per generated crate is strongly super-linear in the number of modules (207
+    modules that take <= 1 s each took > 400 s together): keep every crate at about 60 modules."""
+    nat = kw.get("native", {})
+    modules = (nat.get("directed_items", 60000) // pool_stride) + nat.get("corpus_items", 500) + n_inputs
+    return max(96, modules // 60 + 1)
+
+
 def engine_r_t(kw, n_inputs, chunks, pool_stride=1):
     """Real host, T1/T3: generated + corpus + directed inputs through the shipped dylib."""
     exe, out, rustc, seed = kw["exe"], kw["out"], kw["rustc"], kw["seed"]
@@ -205,7 +227,7 @@ def engine_r_t(kw, n_inputs, chunks, pool_stride=1):
         cmd = [exe, "emit-crate", "--repo", kw["repo"], *_pool_files(kw), "--root", str(seed), "--from", "0",
                "--n", str(n_inputs), "--out", files[c], "--no-user-compile-error", "--with-pool",
                "--pool-stride", str(pool_stride), "--pool-offset", str(seed % pool_stride),
-               "--no-native", "--shard", f"{c}/{chunks}", "--max-tokens", "700"]
+               "--no-native", "--shard", f"{c}/{chunks}", "--max-tokens", "350"]
         r = subprocess.run(cmd, env={"PATH": "/usr/bin:/bin"}, capture_output=True, text=True)
         if r.returncode != 0:
             raise HarnessError(f"emit-crate failed: {r.stderr[-2000:]}")
@@ -215,7 +237,9 @@ def engine_r_t(kw, n_inputs, chunks, pool_stride=1):
     classes = []
     modules = 0
     with concurrent.futures.ThreadPoolExecutor(max_workers=kw["jobs"]) as ex:
-        errs = list(ex.map(lambda f: _rustc_metadata(rustc, so, f, d), files))
+        errs = list(ex.map(lambda f: _rustc_metadata(rustc, so, f, d, timeout=60, partial=True), files))
+    cut_off = sum(1 for e in errs if isinstance(e, _Partial))
+    inconclusive = 0
     for f, err in zip(files, errs):
         src_lines = open(f).read().splitlines()
         index = {e["module"]: e for e in json.load(open(f[:-3] + ".index.json"))}
@@ -224,8 +248,11 @@ def engine_r_t(kw, n_inputs, chunks, pool_stride=1):
             mod = _find_hanging_module(rustc, so, f, d)
             ent = index.get(mod)
             if not ent:
-                raise HarnessError(f"engine R: rustc did not finish {f} within {RUSTC_TIMEOUT_S}s and the "
-                                   "stall could not be attributed to a single module")
+                # no single module makes rustc hang on its own: an expansion that does not terminate
+                # would (each invocation is independent), so this is rustc's own time (or a starved
+                # machine). No verdict from this crate; counted in the evidence.
+                inconclusive += 1
+                continue
             req = ent["req"]
             disp = (f"#[derive_ex({req['attr']})] {req['item']}" if req["mode"] == "attr"
                     else f"#[derive(Ex)] {req['item']}")
@@ -294,6 +321,7 @@ def engine_r_t(kw, n_inputs, chunks, pool_stride=1):
             best[k]["occurrences"] += 1
     shutil.rmtree(d, ignore_errors=True)
     return {"modules_compiled": modules, "rustc_processes": len(files), "wall_s": round(time.time() - t0, 1),
+            "crates_cut_off_after_expansion": cut_off, "crates_inconclusive": inconclusive,
             "dylib": os.path.basename(so)}, list(best.values()), modules
 
 
@@ -724,7 +752,7 @@ def run_extra(**kw):
                                                   "sessions and the first ordinary sessions, each in a cfg'd-out module")
             res["classes"] += classes
             res["evaluations"] += ev
-            info, classes, ev = engine_r_t(kw, n_inputs=0, chunks=max(96, 6 * kw["jobs"]), pool_stride=3)
+            info, classes, ev = engine_r_t(kw, n_inputs=0, chunks=_chunks_for(kw, 0, 3), pool_stride=3)
             res["engines"]["R-T"] = dict(info, what="corpus and one third of the directed seeds, rotating with the seed "
                                                     "(all of them plus generated inputs in the thorough tier): "
                                                     "shipped dylib (guard off), real proc_macro bridge, real wrappers, stable "
@@ -745,7 +773,7 @@ def run_extra(**kw):
                                                   "sessions and the first ordinary sessions, each in a cfg'd-out module")
             res["classes"] += classes
             res["evaluations"] += ev
-            info, classes, ev = engine_r_t(kw, n_inputs=16000, chunks=max(384, 24 * kw["jobs"]))
+            info, classes, ev = engine_r_t(kw, n_inputs=16000, chunks=_chunks_for(kw, 16000, 1))
             res["engines"]["R-T"] = dict(info, what="shipped dylib (guard off), real proc_macro bridge, real wrappers, "
                                                     "stable rustc --emit=metadata; verdict only on macro panics and "
                                                     "message-less compile_error!; nothing stubbed")
